@@ -149,6 +149,10 @@ def batch_loops_rule(ctx, rule, p, specs):
                     problems.append(f"`{a.id}` (shared by all iterations) is handed to `{r.name}`, which writes its `{pn}` argument")
                 elif isinstance(a, ast.Subscript) and lvname not in names:
                     problems.append(f"`{ast.unparse(a)}` handed to `{r.name}` (writes `{pn}`) is not a per-iteration slice")
+        from .fc import whole_axis_range
+        okr, ext = whole_axis_range(f.node, lp)
+        if not okr:
+            problems.append(f"the loop runs over `{ext}`, not over a whole array axis: some entries are never computed")
         if problems:
             ctx.bad(rule, f"{f.name}[{lvname} loop]", "; ".join(sorted(set(problems))), f.loc(lp))
         else:
